@@ -106,6 +106,41 @@ PROPS = {
         explanation='Batcher invariant (an emitted batch has exactly output_batch_size parts in arrival order, unbatching emits members one by one in order, in-progress batch never exceeds the size) '
                     'for every reachable state; tie = lock-step on batch contents after every event.',
         assumptions=['well-posed layouts', 'output_batch_size None or >= 1']),
+    'C03': dict(
+        vfile='Props/C03.v', ties=['Tie/TieEnv.v', 'Tie/TieFloor.v'],
+        families=[('floor', 400, 12000, 'small', 'large')],
+        rule='F_floor scenarios: layered production lines (sources incl. cycle 0 and finite budgets, handlers, processors with resources/callbacks/work orders, buffers with delay and capacity, batchers, decision gates, flow controllers, shared groups reached through several paths, sinks), scripted failures/shutdowns/restores/blocking/capacity changes, many single steps then runs, generated from VERIF_SEED (corpus/floor first); '
+             'non-trivial = at least 8 parts received by devices and 3 supplied by sources; distinct by scenario text',
+        explanation='Local wake-up theorems (refused hand-over sets the waiting flag; a signalled waiting device schedules an attempt now; restore/unblock/budget raise end in a signal). The global "every blocked part is genuinely blocked when time advances" is decided by the liveness monitor on the implementation and the lock-step. PARTIAL.',
+        assumptions=['well-posed layouts', 'mid-run rewiring not generated', 'termination: harness step bound']),
+    'C06': dict(
+        vfile='Props/C06.v', ties=['Tie/TieEnv.v', 'Tie/TieFloor.v'],
+        families=[('floor', 400, 12000, 'small', 'large')],
+        rule='F_floor scenarios: layered production lines (sources incl. cycle 0 and finite budgets, handlers, processors with resources/callbacks/work orders, buffers with delay and capacity, batchers, decision gates, flow controllers, shared groups reached through several paths, sinks), scripted failures/shutdowns/restores/blocking/capacity changes, many single steps then runs, generated from VERIF_SEED (corpus/floor first); '
+             'non-trivial = a failure or a pause happened and at least 2 parts were produced; distinct by scenario text',
+        explanation='Timer theorems (accept time + max(0, cycle + one-shot offset), offset consumed, FINISH needs its part, shutdown pauses / failure cancels, resumed events keep their remaining delay, cancelled events never run). End-to-end exact cycle timing is decided by the cycle-time monitor and lock-step. PARTIAL.',
+        assumptions=['well-posed layouts', 'cycle times on the 1/8 grid']),
+    'C08': dict(
+        vfile='Props/C08.v', ties=['Tie/TieEnv.v', 'Tie/TieFloor.v'],
+        families=[('floor', 400, 12000, 'small', 'large')],
+        rule='F_floor scenarios: layered production lines (sources incl. cycle 0 and finite budgets, handlers, processors with resources/callbacks/work orders, buffers with delay and capacity, batchers, decision gates, flow controllers, shared groups reached through several paths, sinks), scripted failures/shutdowns/restores/blocking/capacity changes, many single steps then runs, generated from VERIF_SEED (corpus/floor first); '
+             'non-trivial = a gate or group path is present and at least 6 parts were received; distinct by scenario text',
+        explanation='Local routing theorems (offers go to exactly the configured downstream neighbours, longest idle first; gates and blocked inputs refuse; history extended by the accepting device; identities preserved). Whole-route history / group path matching decided by the routing monitor and lock-step. PARTIAL.',
+        assumptions=['well-posed layouts', 'nested groups not generated']),
+    'C11': dict(
+        vfile='Props/C11.v', ties=['Tie/TieEnv.v', 'Tie/TieFloor.v', 'Tie/TieRM.v'],
+        families=[('floor', 400, 12000, 'small', 'large')],
+        rule='F_floor scenarios: layered production lines (sources incl. cycle 0 and finite budgets, handlers, processors with resources/callbacks/work orders, buffers with delay and capacity, batchers, decision gates, flow controllers, shared groups reached through several paths, sinks), scripted failures/shutdowns/restores/blocking/capacity changes, many single steps then runs, generated from VERIF_SEED (corpus/floor first); '
+             'non-trivial = a processor declares resources and at least 4 resource records were written; distinct by scenario text',
+        explanation='World-level invariant proved for every reachable state (every event, any weights): pool usage = sum of declared requirements of holding devices, each holder holds exactly its declaration, no sharing; acceptance needs the reservation; failure releases; shutdown keeps. "No idle operational processor holds resources when time advances" decided by the monitor. PARTIAL for that clause.',
+        assumptions=['well-posed layouts', 'requests with distinct resource names']),
+    'C15': dict(
+        vfile='Props/C15.v', ties=['Tie/TieEnv.v', 'Tie/TieFloor.v', 'Tie/TieRM.v', 'Tie/TieMaint.v'],
+        families=[('floor', 400, 12000, 'small', 'large')],
+        rule='F_floor scenarios: layered production lines (sources incl. cycle 0 and finite budgets, handlers, processors with resources/callbacks/work orders, buffers with delay and capacity, batchers, decision gates, flow controllers, shared groups reached through several paths, sinks), scripted failures/shutdowns/restores/blocking/capacity changes, many single steps then runs, generated from VERIF_SEED (corpus/floor first); '
+             'non-trivial = at least 8 parts received and 3 supplied; distinct by scenario text',
+        explanation='Records only appended; each record carries the state of its moment; level record = level; resource record = pool. Exactly-one-record-per-occurrence and counters = record counts decided by the record monitor and the lock-step on the full data log. PARTIAL.',
+        assumptions=['well-posed layouts', 'event trace printing (trace=True) not modelled: the dispatch log is compared instead']),
 }
 
 LEVELS = {
@@ -177,9 +212,29 @@ LEVELS = {
         text='Machine-checked Coq theorems: batch invariant for every reachable state (in-progress batch below the size, emitted batches full and in arrival order; unbatching in order).',
         design_ref='DESIGN.md section 8, C17', technique='Coq proof (batcher invariant stable under all guarded transformers) + lock-step correspondence with PartBatcher',
         note='Trusted: Coq kernel, pyfacts.py, extraction + OCaml driver, Python harness.'),
+    'C03': dict(
+        text='PARTIAL. Machine-checked: the local wake-up rules of the floor model (waiting flag after a refusal, attempt scheduled at the same instant on every signal, signals after restore/unblock/budget raise; availability checks after resource changes via C10). The global no-lost-wake-up statement at clock advances and run termination are decided by the liveness monitor on the implementation plus lock-step.',
+        design_ref='DESIGN.md section 8, C03', technique='Coq proof (wake-up lemmas over the floor model) + lock-step correspondence + liveness monitor at every clock advance',
+        note='Partial: global liveness not a theorem.'),
+    'C06': dict(
+        text='PARTIAL. Machine-checked: timer = accept time + max(0, cycle + offset) under the device id, offset one-shot, FINISH requires exactly the part in process on an operational device, shutdown pauses / failure cancels (also during a shutdown: repaired defect D4), resumed events keep remaining delay and cancelled events never run (C07). The whole-run exact-timing statement is decided by the cycle-time monitor + lock-step.',
+        design_ref='DESIGN.md section 8, C06', technique='Coq proof (timer and interruption lemmas + C07 event-queue theorems) + lock-step correspondence + cycle-time monitor',
+        note='Partial: composition over a run not a single theorem.'),
+    'C08': dict(
+        text='PARTIAL. Machine-checked: offers go to a permutation of the configured downstream list sorted by idle-since time; gates/blocked inputs refuse without any change; accepted part history = offered history ++ [device]; identities never rewritten. Whole-route statements decided by the routing monitor + lock-step.',
+        design_ref='DESIGN.md section 8, C08', technique='Coq proof (routing lemmas: permutation + sortedness of the offer order, refusal guards) + lock-step correspondence + routing monitor',
+        note='Partial: whole-route history and group-path matching not theorems.'),
+    'C11': dict(
+        text='Machine-checked world-level invariant (pools, reservation objects and device holdings agree) preserved by every world step, event, call and system step; exact holdings; no sharing; acceptance needs the reservation; failure releases; shutdown keeps. PARTIAL for the clause about idle processors at clock advances (event-queue level), decided by the monitor.',
+        design_ref='DESIGN.md section 8, C11', technique='Coq proof (world-level invariant over labelled world steps, using the C09 operation specifications) + lock-step correspondence + resource monitor',
+        note='Initial-state establishment proved from a simple predicate (nothing reserved yet); decode => that predicate validated by lock-step.'),
+    'C15': dict(
+        text='PARTIAL. Machine-checked: the record list only grows during an action; receive/level/failure/resource records carry the state of their moment; level = stored parts. Exactly-one-record-per-occurrence and counters = record counts decided by the record monitor and lock-step over the full data log after every event.',
+        design_ref='DESIGN.md section 8, C15', technique='Coq proof (append-only log over all world steps, record payload lemmas) + lock-step correspondence on the full data log + record monitor',
+        note='Partial: counting clauses not theorems.'),
 }
 
 NOT_APPLICABLE = [
     dict(property_id=p, reason='check under construction in this round (model layer not yet built); see DESIGN.md section 12 build order')
-    for p in ['C03', 'C04', 'C06', 'C08', 'C11', 'C14', 'C15', 'C20']
+    for p in ['C04', 'C14', 'C20']
 ]
